@@ -13,8 +13,10 @@ def c_step(st):
             raise pl.Unrepresentable("phase object name outside the model")
         step = "(DPhase %d %d %d)" % (t["kind"], t["ns"], t["name"])
     else:
-        step = "(DEnv %s %s %s)" % (pl.c_store(st.get("env_objs") or []), cL([sl.c_set(s) for s in st.get("env_sets") or []]),
-                                    cL([pl.c_oid(o) for o in st.get("env_gone") or []]))
+        step = "(DEnv %s %s %s %s %s)" % (pl.c_store(st.get("env_objs") or []), cL([sl.c_set(s) for s in st.get("env_sets") or []]),
+                                          cL([pl.c_oid(o) for o in st.get("env_gone") or []]),
+                                          cL([pl.c_oid(o) for o in st.get("env_phases_gone") or []]),
+                                          cL([pl.c_key(k) for k in st.get("env_keys_gone") or []]))
     return "(Build_dobs %s %s %s %d %d %s %s)" % (step, sl.RES[st["res"]], cL([sl.c_sev(e) for e in st["events"]]),
                                                   st["next_rv"], st["next_uid"],
                                                   cO(sl.c_set(st["pre_set"]) if st.get("pre_set") else None),
@@ -165,6 +167,49 @@ def scenario_handover(r, mask_old=None, mask_new=None, strategy="native", policy
             "twin": strategy == "native"}
 
 
+def scenario_handover3(r, mask_mid=None, strategy="native", policy=None):
+    """Three revisions: 8 (all phases in-process, no remote phases), 9 (previous = [8], delegated per mask), 10
+    (previous = [8, 9], any mask): the adoption check has to look past a previous revision without remote phases."""
+    cluster = r.random() < 0.2
+    okind, ons = (2, 0) if cluster else (1, 1)
+    nph = len(mask_mid) if mask_mid else r.choice([1, 2])
+    objs, _ = gen_objects(r, ons, nph, dense=True)
+    for ph in objs:
+        for o in ph:
+            o["cp"] = 0   # Prevent: the handover depends on the previous-revision check alone
+    mask_mid = mask_mid or [True] + [r.random() < 0.5 for _ in range(nph - 1)]
+    mask_new = [r.random() < 0.5 for _ in range(nph)]
+    mk = lambda name, uid, rv, mask, prev: sl.mk_set(okind, ons, name, uid, rv=rv, revision=0, fin=False, prev=prev,
+        phases=[{"name": i + 1, "class": bool(mask[i]), "objects": copy.deepcopy(objs[i])} for i in range(nph)])
+    s8, s9, s10 = mk(8, 80, 5, [False] * nph, []), mk(9, 90, 6, mask_mid, [8]), mk(10, 100, 7, mask_new, [8, 9])
+    policy = policy or r.choice(["rr", "rr", "random"])
+    seed = r.randint(1, 10 ** 6)
+    stages = [{"targets": [tgt(s8)], "policy": policy, "seed": seed},
+              {"targets": [tgt(s8), tgt(s9)], "policy": policy, "seed": seed + 1},
+              {"targets": [tgt(s8), tgt(s9), tgt(s10)], "policy": policy, "seed": seed + 2}]
+    if r.random() < 0.6:
+        stages.append({"ops": [{"op": "life", "target": tgt(s8), "life": 2}, {"op": "life", "target": tgt(s9), "life": 2}],
+                       "targets": [tgt(s8), tgt(s9), tgt(s10)], "policy": policy, "seed": seed + 3})
+    return {"family": "handover3", "force": False, "strategy": strategy, "store": [], "sets": sl.sort_sets([s8, s9, s10]), "phases": [],
+            "nss": [[1, 0]] if ons else [], "next_rv": 50, "next_uid": 60, "kubelet": True, "stages": stages, "twin": strategy == "native"}
+
+
+def scenario_recreated(r, mask_old=None, strategy="native", policy=None):
+    """Handover from a revision whose phase objects were deleted out-of-band (their members garbage collected) and
+    re-created by the next passes under new uids, before the next revision takes over."""
+    sc = scenario_handover(r, mask_old=mask_old, mask_new=None, strategy=strategy, policy=policy, nph=len(mask_old) if mask_old else None)
+    for s_ in sc["sets"]:
+        for ph in s_["phases"]:
+            for o in ph["objects"]:
+                o["cp"] = 0   # Prevent: the handover depends on the previous-revision check alone
+    old = [s for s in sc["sets"] if s["name"] == 9][0]
+    st = sc["stages"]
+    sc["stages"] = [st[0], {"ops": [{"op": "gc-phases", "target": tgt(old)}], "targets": [tgt(old)], "policy": st[0]["policy"], "seed": 11}] + st[1:]
+    sc["family"] = "recreated"
+    sc["kubelet"] = True
+    return sc
+
+
 def scenario_states(r, strategy="native"):
     """One ObjectSet in an arbitrary state with pre-existing phase objects in arbitrary states (status for a stale /
     current generation, Available True / False / absent, paused mismatch, deleting, foreign controller, other class,
@@ -202,8 +247,9 @@ def scenario_states(r, strategy="native"):
             if r.random() < 0.12:
                 po["deleting"] = True
                 po["fin"] = po["fin"] or not po["orphan"]
-            if r.random() < 0.5:
-                remotes.append([pname, puid])
+            if r.random() < 0.6:
+                # recorded in status.remotePhases, sometimes with the uid of an earlier incarnation of the phase object
+                remotes.append([pname, puid if r.random() < 0.7 else puid + 500])
             pobjs.append(po)
         for po_ in objs[i]:
             if r.random() >= 0.6:
@@ -280,7 +326,14 @@ def gen(seed, tier):
             for mn in masks(nph):
                 if any(mo) or any(mn):
                     scs.append(scenario_handover(r, mo, mn, nph=nph))
-    n_roll, n_hand, n_states = (22, 20, 45) if tier == "quick" else (420, 330, 650)
+    # handovers past a previous revision without remote phases, and from re-created phase objects
+    for m in ([True], [True, False], [False, True], [True, True]):
+        scs.append(scenario_handover3(r, mask_mid=m, policy="rr"))
+        scs.append(scenario_recreated(r, mask_old=m, policy="rr"))
+    n_roll, n_hand, n_states = (20, 14, 45) if tier == "quick" else (400, 300, 650)
+    for i in range(3 if tier == "quick" else 60):
+        scs.append(scenario_handover3(r, strategy="annot" if i % 5 == 4 else "native"))
+        scs.append(scenario_recreated(r, mask_old=[True] + [r.random() < 0.5 for _ in range(r.choice([0, 1]))], strategy="annot" if i % 5 == 3 else "native"))
     for i in range(n_roll):
         scs.append(scenario_rollout(r, strategy="annot" if i % 4 == 3 else "native", paused_start=(i % 7 == 5)))
     for i in range(n_hand):
